@@ -31,6 +31,11 @@ def sampled(block: str, mod: int) -> bool:
         return True
     return ((hash(block) ^ (_SEED * 2654435761)) & 0x7FFFFFFF) % mod == 0
 
+def pick(block: str, salt: str, n: int) -> int:
+    """A choice in 0..n-1 derived from the state, independent of the bits `sampled` looks at (a plain hash(block) % 2
+    is constant on a 1/6 sample)."""
+    return (hash((salt, hash(block))) & 0x7FFFFFFF) % n
+
 def jhash(obj) -> str:
     return hashlib.sha1(json.dumps(obj, sort_keys=True, default=repr).encode()).hexdigest()[:16]
 
